@@ -433,6 +433,10 @@ class JaxImplicitComponent(ImplicitComponent):
             The partials to compute.
         """
         J = self._jac_func_(self._tangents['rev'], tuple(chain(inputs.values(), outputs.values())))
+        # one entry per compute_primal argument (inputs, then outputs); the jacobian columns are
+        # ordered outputs first, then inputs
+        nin = inputs.nvars()
+        J = tuple(J[nin:]) + tuple(J[:nin])
         J = _jax2np(J).T
         if self._coloring_info.coloring is not None:
             J = self._coloring_info.coloring._expand_jac(J, 'rev')
@@ -455,15 +459,15 @@ class JaxImplicitComponent(ImplicitComponent):
 
         Returns
         -------
-        coo_matrix
-            The sparsity of the Jacobian.
+        coo_matrix, dict
+            The sparsity of the Jacobian and the sparsity info (as System.compute_sparsity).
         """
         if self._sparsity is None:
             if self._has_approx:
                 self._sparsity = super().compute_sparsity(direction=direction, num_iters=num_iters,
-                                                          perturb_size=perturb_size)[0]
+                                                          perturb_size=perturb_size)
             else:
-                self._sparsity = _compute_sparsity(self, direction, num_iters, perturb_size)[0]
+                self._sparsity = _compute_sparsity(self, direction, num_iters, perturb_size)
 
         return self._sparsity
 
@@ -495,9 +499,13 @@ class JaxImplicitComponent(ImplicitComponent):
         """
         if self._tangents[direction] is None:
             if direction == 'fwd':
-                self._tangents[direction] = get_vmap_tangents(tuple(chain(self._inputs.values(),
-                                                                          self._outputs.values())),
-                                                              direction, fill=1., coloring=coloring)
+                # the columns of the jacobian (and of the coloring) are ordered outputs first, then
+                # inputs, but compute_primal takes the inputs first
+                nout = self._outputs.nvars()
+                tangents = get_vmap_tangents(tuple(chain(self._outputs.values(),
+                                                         self._inputs.values())),
+                                             direction, fill=1., coloring=coloring)
+                self._tangents[direction] = tangents[nout:] + tangents[:nout]
             else:
                 self._tangents[direction] = get_vmap_tangents(tuple(self._outputs.values()),
                                                               direction, fill=1., coloring=coloring)
